@@ -60,6 +60,9 @@ def captured():
 
 trace({"ev": "import", "argv": sys.argv[1:6]})
 
+# code under test that binds the standard input when it is imported (before the runner's features are set up)
+_stdin_readline = sys.stdin.readline
+
 
 class LayerError(Exception):
     pass
@@ -186,7 +189,11 @@ def build_layers():
             ns["__module__"] = spec["module"]
             LAYERS.append(type(spec["name"], bases or (object,), ns))
         else:
-            o = type("InstanceLayer", (), {})()
+            ns = {}
+            if spec.get("falsy"):
+                # a layer object that is false as long as it holds no resources (a container filled in setUp)
+                ns["__len__"] = lambda self: 0
+            o = type("InstanceLayer", (), ns)()
             o.__name__ = spec["name"]
             o.__module__ = spec["module"]
             o.__bases__ = bases
@@ -229,6 +236,24 @@ def do_part(test, ph, part):
     if part.get("chdir"):
         import tempfile
         os.chdir(tempfile.gettempdir())
+    if part.get("atexit_fd2"):
+        # something that reports on the real stderr when the process shuts down (a fixture server being stopped):
+        # in a layer subprocess that is after the report has been written
+        import atexit
+        text = part["atexit_fd2"].encode("latin-1")
+        atexit.register(lambda: os.write(2, text))
+    if part.get("readstdin"):
+        # reads through the reference taken at import time: in a layer subprocess the real stdin is a pipe nobody
+        # ever writes to
+        _stdin_readline()
+    if part.get("stderr_text"):
+        sys.stderr.write(part["stderr_text"])
+    if part.get("settrace"):
+        # a test that installs a trace function of its own and removes it again
+        def _tracer(frame, event, arg):
+            return None
+        sys.settrace(_tracer)
+        sys.settrace(None)
     if part.get("warnfilter"):
         # test code that changes the warning filters and does not restore them
         import warnings
